@@ -223,6 +223,12 @@ def r3_recorded(ctx):
                         pc = Normalizer(f.node, inline=False).conj(astx.path_condition(f.node, n, pm))
                         if f"truthy({t})" in _true_literals(pc):
                             vs.append(n.targets[0].id)
+                # the same entry put into an (empty) mapping:  V[t[0]] = t[1]
+                if isinstance(n, ast.Assign) and len(n.targets) == 1 and isinstance(n.targets[0], ast.Subscript) and isinstance(n.targets[0].value, ast.Name) \
+                        and astx.u(n.targets[0].slice) == f"{t}[0]" and astx.u(n.value) == f"{t}[1]":
+                    pc = Normalizer(f.node, inline=False).conj(astx.path_condition(f.node, n, pm))
+                    if f"truthy({t})" in _true_literals(pc):
+                        vs.append(n.targets[0].value.id)
             ok_flow = False
             for v in vs:
                 for sc, tv in _tiebreaks_kw_values(prog, f):
@@ -247,6 +253,16 @@ def r3_recorded(ctx):
     for name, pat in (("TopTwo", r"self\.election_states\.append\((\w+)\.election_states\[1\]\)"), ("Alaska", r"self\.election_states \+= (\w+)\.election_states\[1:\]")):
         f = prog.find_func(f"{name}._run_step")
         hits = [n for n in astx.walk_own(f.node) if isinstance(n, (ast.Expr, ast.AugAssign)) and re.fullmatch(pat, astx.u(n))]
+        if not hits:
+            # the same state object(s) reached through a local / a loop variable over the sub-election's states
+            for n in astx.walk_own(f.node):
+                if isinstance(n, ast.Expr) and isinstance(n.value, ast.Call) and astx.u(n.value.func) == "self.election_states.append" and n.value.args and isinstance(n.value.args[0], ast.Name):
+                    v = n.value.args[0].id
+                    dv = astx.unique_def(f.node, v)
+                    lp = astx.enclosing(n, astx.parents(f.node), ast.For)
+                    if (dv is not None and re.fullmatch(r"\w+\.election_states\[1\]", astx.u(dv))) or \
+                            (lp is not None and astx.is_name(lp.target, v) and re.fullmatch(r"\w+\.election_states\[1:\]", astx.u(lp.iter))):
+                        hits.append(n)
         ctx.check(len(hits) == 1, f, hits[0] if hits else f.node, f"{name}: the later stage records the sub-election's own states (with their tiebreaks)", astx.u(hits[0]) if hits else "",
                   f"{name} does not append the sub-election's recorded state object(s); a rebuilt state can lose the tiebreak record")
     # (c) composite rules forward the sub-election's record
